@@ -152,7 +152,8 @@ def check_time(spec, metrics, handed):
             probs.append({"kind": "timed_component_not_in_architecture", "einsum": e, "component": c})
             continue
         cls = comp["class"]
-        if cls in ("dram",):
+        if cls in ("dram",) or (cls in ("buffet", "cache") and comp["attributes"].get("bandwidth") is not None):
+            # a memory that sources traffic: bits moved / (bandwidth * instances)
             rate = comp["attributes"].get("bandwidth")
             count = Fraction(0)
             for t, td in d.items():
